@@ -4,50 +4,600 @@ From Coq Require Import Lia ZifyBool Permutation Sorting.Sorted.
 From DSW Require Import Py Kmer Graph Coder Spec GraphSpec CoderSpec.
 Ltac Zify.zify_post_hook ::= Z.to_euclidean_division_equations.
 
-(* TARGET STATEMENTS (to be proved, do not change the statements):
+(* ------------------------------------------------------------------------------------------ *)
+(* generic facts about counting smaller keys, for an arbitrary key function                     *)
+(* ------------------------------------------------------------------------------------------ *)
+Section GenericA.
+Context {A : Type}.
 
-(* argsort returns a permutation of the positions, whatever the keys (even with repeated keys) *)
+Lemma perm_filter_length : forall (g : A -> bool) l l',
+  Permutation l l' -> length (filter g l) = length (filter g l').
+Proof.
+  intros g l l' H; induction H as [|x l l' H IH|x y l|l l' l'' H1 IH1 H2 IH2]; cbn [filter].
+  - reflexivity.
+  - destruct (g x); cbn [length]; lia.
+  - destruct (g x), (g y); cbn [length]; reflexivity.
+  - lia.
+Qed.
+
+Lemma find_unique : forall (g : A -> bool) l u, In u l -> g u = true ->
+  (forall u', In u' l -> g u' = true -> u' = u) -> find g l = Some u.
+Proof.
+  intros g l u Hin Hg Hu. destruct (find g l) as [a|] eqn:E.
+  - apply find_some in E. destruct E as [Ha Hga]. f_equal. apply Hu; assumption.
+  - pose proof (find_none _ _ E u Hin). congruence.
+Qed.
+
+Lemma filter_len_le : forall (g : A -> bool) l, (length (filter g l) <= length l)%nat.
+Proof.
+  intros g l; induction l as [|h t IH]; cbn [filter length]; [lia|].
+  destruct (g h); cbn [length]; lia.
+Qed.
+
+Lemma filter_length_lt : forall (g : A -> bool) l u, In u l -> g u = false ->
+  (length (filter g l) < length l)%nat.
+Proof.
+  intros g l u Hin Hg. induction l as [|h t IH]; [destruct Hin|].
+  cbn [filter length]. destruct Hin as [E|Hin].
+  - subst h. rewrite Hg. pose proof (filter_len_le g t). lia.
+  - specialize (IH Hin). destruct (g h); cbn [length]; lia.
+Qed.
+
+End GenericA.
+
+Section Generic.
+Context {A : Type} (f : A -> Z).
+
+Lemma filter_lt_none : forall k t, Forall (fun b => k < f b) t -> filter (fun x => f x <? k) t = [].
+Proof.
+  intros k t H; induction H as [|b t Hb Ht IH]; cbn [filter]; [reflexivity|].
+  destruct (f b <? k) eqn:E; [lia|exact IH].
+Qed.
+
+Lemma count_sorted_strict : forall l d dflt,
+  StronglySorted (fun a b => f a < f b) l -> (d < length l)%nat ->
+  length (filter (fun x => f x <? f (nth d l dflt)) l) = d.
+Proof.
+  induction l as [|h t IH]; intros d dflt Hs Hd; cbn [length] in Hd; [lia|].
+  apply StronglySorted_inv in Hs. destruct Hs as [Hst Hfa].
+  destruct d as [|d]; cbn [nth filter].
+  - destruct (f h <? f h) eqn:E; [lia|]. rewrite filter_lt_none by exact Hfa. reflexivity.
+  - assert (Hin : In (nth d t dflt) t) by (apply nth_In; lia).
+    rewrite Forall_forall in Hfa. specialize (Hfa _ Hin).
+    destruct (f h <? f (nth d t dflt)) eqn:E; [|lia].
+    cbn [length]. rewrite (IH d dflt Hst) by lia. reflexivity.
+Qed.
+
+Lemma sorted_le_nodup_strict : forall l,
+  StronglySorted (fun a b => f a <= f b) l -> NoDup (map f l) ->
+  StronglySorted (fun a b => f a < f b) l.
+Proof.
+  induction l as [|h t IH]; intros Hs Hn; [constructor|].
+  apply StronglySorted_inv in Hs. destruct Hs as [Hst Hfa].
+  cbn [map] in Hn. apply NoDup_cons_iff in Hn. destruct Hn as [Hni Hnt].
+  constructor; [apply IH; assumption|].
+  rewrite Forall_forall in *. intros b Hb. specialize (Hfa b Hb).
+  assert (f h <> f b) by (intro E; apply Hni; rewrite E; apply in_map; exact Hb).
+  lia.
+Qed.
+
+Lemma strict_sorted_nodup : forall l,
+  StronglySorted (fun a b => f a < f b) l -> NoDup (map f l).
+Proof.
+  induction l as [|h t IH]; intros Hs; cbn [map]; [constructor|].
+  apply StronglySorted_inv in Hs. destruct Hs as [Hst Hfa].
+  constructor; [|apply IH; exact Hst].
+  intro Hin. apply in_map_iff in Hin. destruct Hin as [b [Eb Hb]].
+  rewrite Forall_forall in Hfa. specialize (Hfa b Hb). lia.
+Qed.
+
+Lemma filter_map_length : forall (g : Z -> bool) l,
+  length (filter g (map f l)) = length (filter (fun x => g (f x)) l).
+Proof.
+  intros g l; induction l as [|h t IH]; cbn [map filter]; [reflexivity|].
+  destruct (g (f h)); cbn [length]; lia.
+Qed.
+
+Lemma rank_le : forall l ka kb, ka <= kb ->
+  (length (filter (fun x => (f x <? ka)%Z) l) <= length (filter (fun x => (f x <? kb)%Z) l))%nat.
+Proof.
+  intros l ka kb Hk; induction l as [|h t IH]; cbn [filter]; [lia|].
+  destruct (f h <? ka) eqn:E1; destruct (f h <? kb) eqn:E2; cbn [length]; lia.
+Qed.
+
+Lemma rank_lt : forall l a kb, In a l -> f a < kb ->
+  (length (filter (fun x => (f x <? f a)%Z) l) < length (filter (fun x => (f x <? kb)%Z) l))%nat.
+Proof.
+  intros l a kb Hin Hk; induction l as [|h t IH]; [destruct Hin|].
+  cbn [filter]. destruct Hin as [E|Hin].
+  - subst h. pose proof (rank_le t (f a) kb ltac:(lia)) as Hle.
+    destruct (f a <? f a) eqn:E1; destruct (f a <? kb) eqn:E2; cbn [length]; lia.
+  - specialize (IH Hin).
+    destruct (f h <? f a) eqn:E1; destruct (f h <? kb) eqn:E2; cbn [length]; lia.
+Qed.
+
+Lemma nodup_map_inj : forall l a b, NoDup (map f l) -> In a l -> In b l -> f a = f b -> a = b.
+Proof.
+  induction l as [|h t IH]; intros a b Hn Ha Hb E; [destruct Ha|].
+  cbn [map] in Hn. apply NoDup_cons_iff in Hn. destruct Hn as [Hni Hnt].
+  destruct Ha as [Ha|Ha]; destruct Hb as [Hb|Hb].
+  - congruence.
+  - subst h. exfalso. apply Hni. rewrite E. apply in_map. exact Hb.
+  - subst h. exfalso. apply Hni. rewrite <- E. apply in_map. exact Ha.
+  - eapply IH; eassumption.
+Qed.
+
+Lemma rank_inj : forall l a b, NoDup (map f l) -> In a l -> In b l ->
+  length (filter (fun x => f x <? f a) l) = length (filter (fun x => f x <? f b) l) -> a = b.
+Proof.
+  intros l a b Hn Ha Hb E. apply (nodup_map_inj l); try assumption.
+  destruct (Z.lt_trichotomy (f a) (f b)) as [H|[H|H]]; [|exact H|].
+  - pose proof (rank_lt l a (f b) Ha H). lia.
+  - pose proof (rank_lt l b (f a) Hb H). lia.
+Qed.
+
+End Generic.
+
+(* ------------------------------------------------------------------------------------------ *)
+(* insert_kp / number_from / the sorted list of pairs                                           *)
+(* ------------------------------------------------------------------------------------------ *)
+Definition sort_kp (l : list (Z * Z)) : list (Z * Z) :=
+  fold_left (fun acc kp => insert_kp kp acc) l [].
+
+Lemma argsort_unfold : forall keys, argsort keys = map snd (sort_kp (number_from keys 0)).
+Proof. reflexivity. Qed.
+
+Lemma insert_kp_perm : forall kp l, Permutation (insert_kp kp l) (kp :: l).
+Proof.
+  intros kp l; induction l as [|h t IH]; cbn [insert_kp].
+  - apply Permutation_refl.
+  - destruct (fst kp <? fst h).
+    + apply Permutation_refl.
+    + eapply Permutation_trans; [apply perm_skip; exact IH|apply perm_swap].
+Qed.
+
+Lemma fold_insert_perm : forall l acc,
+  Permutation (fold_left (fun acc kp => insert_kp kp acc) l acc) (l ++ acc).
+Proof.
+  induction l as [|x t IH]; intros acc; cbn [fold_left app].
+  - apply Permutation_refl.
+  - eapply Permutation_trans; [apply IH|].
+    eapply Permutation_trans; [apply Permutation_app_head; apply insert_kp_perm|].
+    apply Permutation_sym. apply Permutation_middle.
+Qed.
+
+Lemma sort_kp_perm : forall l, Permutation (sort_kp l) l.
+Proof.
+  intros l. unfold sort_kp. pose proof (fold_insert_perm l []) as H.
+  rewrite app_nil_r in H. exact H.
+Qed.
+
+Lemma insert_kp_sorted : forall kp l,
+  StronglySorted (fun a b : Z * Z => fst a <= fst b) l ->
+  StronglySorted (fun a b : Z * Z => fst a <= fst b) (insert_kp kp l).
+Proof.
+  intros kp l; induction l as [|h t IH]; intros Hs; cbn [insert_kp].
+  - constructor; constructor.
+  - apply StronglySorted_inv in Hs. destruct Hs as [Hst Hfa].
+    destruct (fst kp <? fst h) eqn:E.
+    + constructor; [constructor; assumption|].
+      constructor; [lia|].
+      rewrite Forall_forall in *. intros b Hb. specialize (Hfa b Hb). lia.
+    + constructor; [apply IH; exact Hst|].
+      rewrite Forall_forall in *. intros b Hb.
+      apply (Permutation_in _ (insert_kp_perm kp t)) in Hb.
+      destruct Hb as [Hb|Hb]; [subst b; lia|apply Hfa; exact Hb].
+Qed.
+
+Lemma fold_insert_sorted : forall l acc,
+  StronglySorted (fun a b : Z * Z => fst a <= fst b) acc ->
+  StronglySorted (fun a b : Z * Z => fst a <= fst b)
+    (fold_left (fun acc kp => insert_kp kp acc) l acc).
+Proof.
+  induction l as [|x t IH]; intros acc Hs; cbn [fold_left]; [exact Hs|].
+  apply IH. apply insert_kp_sorted. exact Hs.
+Qed.
+
+Lemma sort_kp_sorted : forall l, StronglySorted (fun a b : Z * Z => fst a <= fst b) (sort_kp l).
+Proof. intros l. unfold sort_kp. apply fold_insert_sorted. constructor. Qed.
+
+Lemma number_from_fst : forall (l : list Z) i, map fst (number_from l i) = l.
+Proof.
+  induction l as [|x t IH]; intros i; cbn [number_from map fst]; [reflexivity|].
+  rewrite IH. reflexivity.
+Qed.
+
+Lemma number_from_snd : forall (l : list Z) i, map snd (number_from l i) = zrange_from i (length l).
+Proof.
+  induction l as [|x t IH]; intros i; cbn [number_from map snd length zrange_from]; [reflexivity|].
+  rewrite IH. reflexivity.
+Qed.
+
+Lemma number_from_in : forall (l : list Z) i k p, In (k, p) (number_from l i) ->
+  exists n, (n < length l)%nat /\ p = i + Z.of_nat n /\ nth n l 0 = k.
+Proof.
+  induction l as [|x t IH]; intros i k p Hin; cbn [number_from] in Hin; [destruct Hin|].
+  destruct Hin as [E|Hin].
+  - inversion E; subst. exists 0%nat. cbn [length nth]. repeat split; lia.
+  - destruct (IH _ _ _ Hin) as [n [Hn [Hp Hk]]].
+    exists (S n). cbn [length nth]. repeat split; [lia|lia|exact Hk].
+Qed.
+
+Lemma zrange_from_in : forall n s x, In x (zrange_from s n) <-> s <= x < s + Z.of_nat n.
+Proof.
+  induction n as [|n IH]; intros s x; cbn [zrange_from In].
+  - lia.
+  - rewrite IH. lia.
+Qed.
+
+Lemma zrange_from_nodup : forall n s, NoDup (zrange_from s n).
+Proof.
+  induction n as [|n IH]; intros s; cbn [zrange_from]; constructor; [|apply IH].
+  rewrite zrange_from_in. lia.
+Qed.
+
+Lemma zrange_from_len : forall n s, length (zrange_from s n) = n.
+Proof.
+  induction n as [|n IH]; intros s; cbn [zrange_from length]; [reflexivity|].
+  rewrite IH. reflexivity.
+Qed.
+
+(* ------------------------------------------------------------------------------------------ *)
+(* argsort                                                                                      *)
+(* ------------------------------------------------------------------------------------------ *)
 Theorem argsort_perm : forall keys, Permutation (argsort keys) (zrange (length keys)).
+Proof.
+  intros keys. rewrite argsort_unfold. unfold zrange.
+  rewrite <- (number_from_snd keys 0). apply Permutation_map. apply sort_kp_perm.
+Qed.
+
 Theorem argsort_length : forall keys, length (argsort keys) = length keys.
-(* ... and sorts: keys read through it are non-decreasing *)
+Proof.
+  intros keys. rewrite (Permutation_length (argsort_perm keys)).
+  unfold zrange. apply zrange_from_len.
+Qed.
+
+Lemma argsort_in : forall keys x, In x (argsort keys) <-> 0 <= x < Z.of_nat (length keys).
+Proof.
+  intros keys x. split; intros H.
+  - apply (Permutation_in _ (argsort_perm keys)) in H. unfold zrange in H.
+    apply zrange_from_in in H. lia.
+  - apply (Permutation_in _ (Permutation_sym (argsort_perm keys))). unfold zrange.
+    apply zrange_from_in. lia.
+Qed.
+
+Lemma argsort_nodup : forall keys, NoDup (argsort keys).
+Proof.
+  intros keys. apply (Permutation_NoDup (Permutation_sym (argsort_perm keys))).
+  unfold zrange. apply zrange_from_nodup.
+Qed.
+
+Lemma nth_map_snd : forall (S : list (Z * Z)) i, nth i (map snd S) 0 = snd (nth i S (0, 0)).
+Proof. intros S i. exact (map_nth snd S (0, 0) i). Qed.
+
+Lemma sort_kp_length : forall l, length (sort_kp l) = length l.
+Proof. intros l. apply Permutation_length. apply sort_kp_perm. Qed.
+
+Lemma number_from_length : forall (l : list Z) i, length (number_from l i) = length l.
+Proof.
+  induction l as [|x t IH]; intros i; cbn [number_from length]; [reflexivity|].
+  rewrite IH. reflexivity.
+Qed.
+
+(* the i-th sorted pair is (keys[p], p) with p = argsort keys [i] *)
+Lemma sorted_pair_key : forall keys i, (i < length keys)%nat ->
+  let kp := nth i (sort_kp (number_from keys 0)) (0, 0) in
+  snd kp = nth i (argsort keys) 0 /\
+  0 <= snd kp < Z.of_nat (length keys) /\
+  nth (Z.to_nat (snd kp)) keys 0 = fst kp.
+Proof.
+  intros keys i Hi kp. split.
+  - rewrite argsort_unfold, nth_map_snd. reflexivity.
+  - assert (Hin : In kp (sort_kp (number_from keys 0))).
+    { apply nth_In. rewrite sort_kp_length, number_from_length. exact Hi. }
+    apply (Permutation_in _ (sort_kp_perm _)) in Hin.
+    destruct kp as [k p]. apply number_from_in in Hin.
+    destruct Hin as [n [Hn [Hp Hk]]]. cbn [fst snd].
+    replace (Z.to_nat p) with n by lia. split; [lia|exact Hk].
+Qed.
+
+Lemma ssorted_le_nth : forall (l : list (Z * Z)) i j d,
+  StronglySorted (fun a b : Z * Z => fst a <= fst b) l -> (i <= j < length l)%nat ->
+  fst (nth i l d) <= fst (nth j l d).
+Proof.
+  induction l as [|h t IH]; intros i j d Hs Hij; cbn [length] in Hij; [lia|].
+  apply StronglySorted_inv in Hs. destruct Hs as [Hst Hfa].
+  destruct i as [|i]; destruct j as [|j]; cbn [nth]; try lia.
+  - rewrite Forall_forall in Hfa. apply Hfa. apply nth_In. lia.
+  - apply IH; [exact Hst|lia].
+Qed.
+
 Theorem argsort_sorted : forall keys i j, (i <= j < length keys)%nat ->
   nth (Z.to_nat (nth i (argsort keys) 0)) keys 0 <= nth (Z.to_nat (nth j (argsort keys) 0)) keys 0.
+Proof.
+  intros keys i j Hij.
+  destruct (sorted_pair_key keys i ltac:(lia)) as [Hi1 [_ Hi2]].
+  destruct (sorted_pair_key keys j ltac:(lia)) as [Hj1 [_ Hj2]].
+  rewrite <- Hi1, <- Hj1, Hi2, Hj2.
+  apply ssorted_le_nth; [apply sort_kp_sorted|].
+  rewrite sort_kp_length, number_from_length. exact Hij.
+Qed.
 
-(* digit -> position (encode) and position -> digit (decode) are inverse, for ANY keys *)
+(* ------------------------------------------------------------------------------------------ *)
+(* py_get / first_pos                                                                           *)
+(* ------------------------------------------------------------------------------------------ *)
+Lemma nthZ_nth : forall {A} (l : list A) n d, (n < length l)%nat -> nthZ l n = Some (nth n l d).
+Proof.
+  intros A l; induction l as [|x t IH]; intros n d Hn; cbn [length] in Hn; [lia|].
+  destruct n as [|n]; cbn [nthZ nth]; [reflexivity|]. apply IH. lia.
+Qed.
+
+Lemma py_get_ok : forall {A} (l : list A) i d, 0 <= i < Z.of_nat (length l) ->
+  py_get l i = Ok (nth (Z.to_nat i) l d).
+Proof.
+  intros A l i d Hi. unfold py_get. cbv zeta.
+  destruct (i <? 0) eqn:E1; [lia|].
+  destruct (Z.of_nat (length l) <=? i) eqn:E2; [lia|].
+  rewrite ?E1. cbn [orb]. rewrite (nthZ_nth l _ d) by lia. reflexivity.
+Qed.
+
+Lemma first_pos_nodup : forall l n i, NoDup l -> (n < length l)%nat ->
+  first_pos (nth n l 0) l i = Some (i + Z.of_nat n).
+Proof.
+  induction l as [|h t IH]; intros n i Hn Hl; cbn [length] in Hl; [lia|].
+  apply NoDup_cons_iff in Hn. destruct Hn as [Hni Hnt].
+  destruct n as [|n]; cbn [nth first_pos].
+  - rewrite Z.eqb_refl. f_equal. lia.
+  - assert (Hin : In (nth n t 0) t) by (apply nth_In; lia).
+    destruct (nth n t 0 =? h) eqn:E.
+    + exfalso. apply Hni. replace h with (nth n t 0) by lia. exact Hin.
+    + rewrite IH by (assumption || lia). f_equal. lia.
+Qed.
+
+Lemma first_pos_some : forall l x i r, first_pos x l i = Some r ->
+  exists n, (n < length l)%nat /\ r = i + Z.of_nat n /\ nth n l 0 = x.
+Proof.
+  induction l as [|h t IH]; intros x i r H; cbn [first_pos] in H; [discriminate|].
+  destruct (x =? h) eqn:E.
+  - inversion H; subst. exists 0%nat. cbn [length nth]. repeat split; lia.
+  - destruct (IH _ _ _ H) as [n [Hn [Hr Hx]]].
+    exists (S n). cbn [length nth]. repeat split; [lia|lia|exact Hx].
+Qed.
+
+(* a permutation of 0..n-1 read forwards (py_get) and backwards (first_pos) *)
+Lemma perm_get_first : forall (L : list Z) n, Permutation L (zrange n) ->
+  forall rem p, 0 <= rem < Z.of_nat n -> py_get L rem = Ok p ->
+  0 <= p < Z.of_nat n /\ first_pos p L 0 = Some rem.
+Proof.
+  intros L n HP rem p Hrem H.
+  assert (Hlen : length L = n).
+  { rewrite (Permutation_length HP). unfold zrange. apply zrange_from_len. }
+  assert (Hnd : NoDup L).
+  { apply (Permutation_NoDup (Permutation_sym HP)). unfold zrange. apply zrange_from_nodup. }
+  rewrite (py_get_ok L rem 0) in H by lia. inversion H as [Hp]. split.
+  - assert (Hin : In (nth (Z.to_nat rem) L 0) L) by (apply nth_In; lia).
+    apply (Permutation_in _ HP) in Hin. unfold zrange in Hin. apply zrange_from_in in Hin. lia.
+  - rewrite first_pos_nodup by (assumption || lia). f_equal. lia.
+Qed.
+
+Lemma perm_first_get : forall (L : list Z) n, Permutation L (zrange n) ->
+  forall p rem, first_pos p L 0 = Some rem ->
+  0 <= rem < Z.of_nat n /\ py_get L rem = Ok p.
+Proof.
+  intros L n HP p rem H.
+  assert (Hlen : length L = n).
+  { rewrite (Permutation_length HP). unfold zrange. apply zrange_from_len. }
+  apply first_pos_some in H. destruct H as [m [Hm [Hr Hx]]].
+  split; [lia|]. rewrite (py_get_ok L rem 0) by lia.
+  replace (Z.to_nat rem) with m by lia. rewrite Hx. reflexivity.
+Qed.
+
+Lemma perm_first_total : forall (L : list Z) n, Permutation L (zrange n) ->
+  forall p, 0 <= p < Z.of_nat n -> exists rem, first_pos p L 0 = Some rem.
+Proof.
+  intros L n HP p Hp.
+  assert (Hnd : NoDup L).
+  { apply (Permutation_NoDup (Permutation_sym HP)). unfold zrange. apply zrange_from_nodup. }
+  assert (Hin : In p L).
+  { apply (Permutation_in _ (Permutation_sym HP)). unfold zrange. apply zrange_from_in. lia. }
+  destruct (In_nth L p 0 Hin) as [m [Hm Hx]].
+  exists (0 + Z.of_nat m). rewrite <- Hx. apply first_pos_nodup; assumption.
+Qed.
+
+Lemma argsort_pick_perm : forall srow used,
+  Permutation (argsort (pick srow used)) (zrange (length used)).
+Proof.
+  intros srow used. pose proof (argsort_perm (pick srow used)) as H.
+  unfold pick in H at 2. rewrite map_length in H. exact H.
+Qed.
+
+(* ------------------------------------------------------------------------------------------ *)
+(* shuffle_digit / unshuffle_digit                                                              *)
+(* ------------------------------------------------------------------------------------------ *)
 Theorem shuffle_unshuffle : forall sh v used rem, 0 <= rem < Z.of_nat (length used) ->
   forall p, shuffle_digit sh v used rem = Ok p ->
   0 <= p < Z.of_nat (length used) /\ unshuffle_digit sh v used p = Ok rem.
+Proof.
+  intros sh v used rem Hrem p H. unfold shuffle_digit, unshuffle_digit in *.
+  destruct sh as [t|].
+  - destruct (py_get t v) as [srow|e|]; cbn [bind] in *; try discriminate.
+    destruct (perm_get_first _ _ (argsort_pick_perm srow used) rem p Hrem H) as [Hp Hf].
+    split; [exact Hp|]. rewrite Hf. reflexivity.
+  - inversion H; subst. split; [lia|reflexivity].
+Qed.
+
 Theorem unshuffle_shuffle : forall sh v used p, 0 <= p < Z.of_nat (length used) ->
   forall rem, unshuffle_digit sh v used p = Ok rem ->
   0 <= rem < Z.of_nat (length used) /\ shuffle_digit sh v used rem = Ok p.
-(* both are total when the vertex has a table row *)
+Proof.
+  intros sh v used p Hp rem H. unfold shuffle_digit, unshuffle_digit in *.
+  destruct sh as [t|].
+  - destruct (py_get t v) as [srow|e|]; cbn [bind] in *; try discriminate.
+    destruct (first_pos p (argsort (pick srow used)) 0) as [r|] eqn:E; [|discriminate].
+    inversion H; subst r.
+    exact (perm_first_get _ _ (argsort_pick_perm srow used) p rem E).
+  - inversion H; subst. split; [lia|reflexivity].
+Qed.
+
 Theorem shuffle_digit_total : forall sh v used rem, 0 <= rem < Z.of_nat (length used) ->
   (match sh with None => True | Some t => 0 <= v < Z.of_nat (length t) end) ->
   exists p, shuffle_digit sh v used rem = Ok p /\ 0 <= p < Z.of_nat (length used).
+Proof.
+  intros sh v used rem Hrem Hv. unfold shuffle_digit. destruct sh as [t|].
+  - rewrite (py_get_ok t v []) by exact Hv. cbn [bind].
+    set (srow := nth (Z.to_nat v) t []).
+    pose proof (argsort_pick_perm srow used) as HP.
+    assert (Hlen : length (argsort (pick srow used)) = length used).
+    { rewrite (Permutation_length HP). unfold zrange. apply zrange_from_len. }
+    exists (nth (Z.to_nat rem) (argsort (pick srow used)) 0).
+    assert (Hg : py_get (argsort (pick srow used)) rem
+                 = Ok (nth (Z.to_nat rem) (argsort (pick srow used)) 0))
+      by (apply py_get_ok; lia).
+    split; [exact Hg|].
+    exact (proj1 (perm_get_first _ _ HP rem _ Hrem Hg)).
+  - exists rem. split; [reflexivity|exact Hrem].
+Qed.
+
 Theorem unshuffle_digit_total : forall sh v used p, 0 <= p < Z.of_nat (length used) ->
   (match sh with None => True | Some t => 0 <= v < Z.of_nat (length t) end) ->
   exists rem, unshuffle_digit sh v used p = Ok rem /\ 0 <= rem < Z.of_nat (length used).
+Proof.
+  intros sh v used p Hp Hv. unfold unshuffle_digit. destruct sh as [t|].
+  - rewrite (py_get_ok t v []) by exact Hv. cbn [bind].
+    set (srow := nth (Z.to_nat v) t []).
+    pose proof (argsort_pick_perm srow used) as HP.
+    destruct (perm_first_total _ _ HP p Hp) as [rem Hf].
+    exists rem. rewrite Hf. split; [reflexivity|].
+    exact (proj1 (perm_first_get _ _ HP p rem Hf)).
+  - exists p. split; [reflexivity|exact Hp].
+Qed.
 
-(* with distinct keys on the live columns (rows that are permutations), the arc the code picks for
-   digit d is the live column whose key is d-th smallest (the specification's select_arc), and the
-   digit the code recovers from a live column is its rank *)
+(* ------------------------------------------------------------------------------------------ *)
+(* code selection = rank selection                                                              *)
+(* ------------------------------------------------------------------------------------------ *)
+Lemma nth_map_in_range : forall (f : Z -> Z) l n, (n < length l)%nat ->
+  nth n (map f l) 0 = f (nth n l 0).
+Proof.
+  intros f l n Hn. rewrite (nth_indep (map f l) 0 (f 0)) by (rewrite map_length; exact Hn).
+  apply map_nth.
+Qed.
+
+(* with distinct keys, the element argsort puts at position d has exactly d smaller keys *)
+Lemma argsort_rank : forall (f : Z -> Z) used d, NoDup (map f used) -> (d < length used)%nat ->
+  0 <= nth d (argsort (map f used)) 0 < Z.of_nat (length used) /\
+  length (filter (fun u' => f u' <? f (nth (Z.to_nat (nth d (argsort (map f used)) 0)) used 0)) used) = d.
+Proof.
+  intros f used d Hnd Hd.
+  set (keys := map f used).
+  assert (Hlen : length keys = length used) by (unfold keys; apply map_length).
+  set (S := sort_kp (number_from keys 0)).
+  destruct (sorted_pair_key keys d ltac:(lia)) as [H1 [H2 H3]]. fold S in H1, H2, H3.
+  rewrite <- H1.
+  split; [lia|].
+  assert (HP : Permutation S (number_from keys 0)) by apply sort_kp_perm.
+  assert (Hstrict : StronglySorted (fun a b : Z * Z => fst a < fst b) S).
+  { apply sorted_le_nodup_strict; [apply sort_kp_sorted|].
+    apply (Permutation_NoDup (Permutation_sym (Permutation_map fst HP))).
+    rewrite number_from_fst. exact Hnd. }
+  pose proof (count_sorted_strict fst S d (0, 0) Hstrict
+                ltac:(unfold S; rewrite sort_kp_length, number_from_length; lia)) as Hc.
+  rewrite <- H3 in Hc.
+  assert (Hk : nth (Z.to_nat (snd (nth d S (0, 0)))) keys 0
+               = f (nth (Z.to_nat (snd (nth d S (0, 0)))) used 0))
+    by (unfold keys; apply nth_map_in_range; lia).
+  rewrite Hk in Hc.
+  rewrite (perm_filter_length _ _ _ HP) in Hc.
+  rewrite <- (filter_map_length fst (fun k' => k' <? f (nth (Z.to_nat (snd (nth d S (0, 0)))) used 0))) in Hc.
+  rewrite number_from_fst in Hc. unfold keys in Hc.
+  rewrite (filter_map_length f (fun k' => k' <? f (nth (Z.to_nat (snd (nth d S (0, 0)))) used 0))) in Hc.
+  exact Hc.
+Qed.
+
+Lemma argsort_rank_in : forall srow used d, NoDup (map (key_of srow) used) -> (d < length used)%nat ->
+  0 <= nth d (argsort (map (key_of srow) used)) 0 < Z.of_nat (length used) /\
+  rank_in srow used (nth (Z.to_nat (nth d (argsort (map (key_of srow) used)) 0)) used 0) = Z.of_nat d.
+Proof.
+  intros srow used d Hnd Hd.
+  destruct (argsort_rank (key_of srow) used d Hnd Hd) as [Hp Hr].
+  split; [exact Hp|]. unfold rank_in. rewrite Hr. reflexivity.
+Qed.
+
+Lemma select_arc_unique : forall srow used u d, NoDup (map (key_of srow) used) -> In u used ->
+  rank_in srow used u = d -> select_arc srow used d = Some u.
+Proof.
+  intros srow used u d Hnd Hin Hr. unfold select_arc. apply find_unique.
+  - exact Hin.
+  - lia.
+  - intros u' Hin' Hr'. apply (rank_inj (key_of srow) used); try assumption.
+    unfold rank_in in *. lia.
+Qed.
+
 Theorem code_select_is_spec : forall (srow : list Z) used d,
   NoDup (map (fun u => nth (Z.to_nat u) srow (-1)) used) -> 0 <= d < Z.of_nat (length used) ->
   Forall (fun u => 0 <= u < Z.of_nat (length srow)) used ->
   exists p, nth_error (argsort (pick srow used)) (Z.to_nat d) = Some p /\
             select_arc (Some srow) used d = Some (nth (Z.to_nat p) used 0).
+Proof.
+  intros srow used d Hnd Hd _.
+  change (NoDup (map (key_of (Some srow)) used)) in Hnd.
+  change (pick srow used) with (map (key_of (Some srow)) used).
+  destruct (argsort_rank_in (Some srow) used (Z.to_nat d) Hnd ltac:(lia)) as [Hp Hr].
+  exists (nth (Z.to_nat d) (argsort (map (key_of (Some srow)) used)) 0). split.
+  - apply nth_error_nth'. rewrite argsort_length, map_length. lia.
+  - apply select_arc_unique; [exact Hnd|apply nth_In; lia|lia].
+Qed.
+
 Theorem code_rank_is_spec : forall (srow : list Z) used pos,
   NoDup (map (fun u => nth (Z.to_nat u) srow (-1)) used) -> (pos < length used)%nat ->
   Forall (fun u => 0 <= u < Z.of_nat (length srow)) used ->
   first_pos (Z.of_nat pos) (argsort (pick srow used)) 0 = Some (rank_in (Some srow) used (nth pos used 0)).
-(* without a table the d-th live column is selected (used is strictly ascending) *)
+Proof.
+  intros srow used pos Hnd Hpos _.
+  pose proof (argsort_pick_perm srow used) as HP.
+  destruct (perm_first_total _ _ HP (Z.of_nat pos) ltac:(lia)) as [rem Hf].
+  rewrite Hf. f_equal.
+  destruct (perm_first_get _ _ HP _ _ Hf) as [Hrem Hg].
+  rewrite (py_get_ok _ rem 0) in Hg
+    by (rewrite (Permutation_length HP); unfold zrange; rewrite zrange_from_len; lia).
+  inversion Hg as [Hn].
+  change (NoDup (map (key_of (Some srow)) used)) in Hnd.
+  change (pick srow used) with (map (key_of (Some srow)) used) in Hn.
+  destruct (argsort_rank_in (Some srow) used (Z.to_nat rem) Hnd ltac:(lia)) as [_ Hr].
+  rewrite Hn in Hr. rewrite Nat2Z.id in Hr. lia.
+Qed.
+
 Theorem select_no_table : forall used d, StronglySorted Z.lt used -> 0 <= d < Z.of_nat (length used) ->
   select_arc None used d = Some (nth (Z.to_nat d) used 0) /\ rank_in None used (nth (Z.to_nat d) used 0) = d.
-(* select_arc and rank_in are inverse bijections between digits and live columns *)
+Proof.
+  intros used d Hs Hd.
+  assert (Hr : rank_in None used (nth (Z.to_nat d) used 0) = d).
+  { pose proof (count_sorted_strict (fun u : Z => u) used (Z.to_nat d) 0 Hs ltac:(lia)) as Hc.
+    cbv beta in Hc. unfold rank_in, key_of. rewrite Hc. lia. }
+  split; [|exact Hr].
+  apply select_arc_unique; [|apply nth_In; lia|exact Hr].
+  exact (strict_sorted_nodup (key_of None) used Hs).
+Qed.
+
 Theorem select_rank_bijection : forall srow used, NoDup (map (key_of srow) used) ->
   (forall d, 0 <= d < Z.of_nat (length used) -> exists u, select_arc srow used d = Some u /\ In u used /\ rank_in srow used u = d) /\
   (forall u, In u used -> 0 <= rank_in srow used u < Z.of_nat (length used) /\ select_arc srow used (rank_in srow used u) = Some u).
+Proof.
+  intros srow used Hnd. split.
+  - intros d Hd.
+    destruct (argsort_rank_in srow used (Z.to_nat d) Hnd ltac:(lia)) as [Hp Hr].
+    set (u := nth (Z.to_nat (nth (Z.to_nat d) (argsort (map (key_of srow) used)) 0)) used 0) in *.
+    assert (Hin : In u used) by (apply nth_In; lia).
+    exists u. split; [apply select_arc_unique; [exact Hnd|exact Hin|lia]|].
+    split; [exact Hin|lia].
+  - intros u Hin. split.
+    + unfold rank_in.
+      pose proof (filter_length_lt (fun u' => key_of srow u' <? key_of srow u) used u Hin
+                    ltac:(apply Z.ltb_irrefl)).
+      lia.
+    + apply select_arc_unique; [exact Hnd|exact Hin|reflexivity].
+Qed.
 
+(* ------------------------------------------------------------------------------------------ *)
 (* the exhaustive finite statement named by the property: all 24 permutations x all 15 non-empty
    live-arc patterns: digit -> arc is a bijection onto the pattern (checked by computation, lifted) *)
 Definition all_perms4 : list (list Z) :=
@@ -63,6 +613,29 @@ Definition check_pair (row pattern : list Z) : bool :=
   let arcs := map (digit_to_arc row pattern) (zrange (length pattern)) in
   forallb (fun a => memZ a pattern) arcs && forallb (fun a => memZ a arcs) pattern
   && Nat.eqb (length (nodup Z.eq_dec arcs)) (length pattern).
+
+Lemma finite_sweep_bool :
+  forallb (fun row => forallb (check_pair row) all_patterns) all_perms4 = true.
+Proof. vm_compute. reflexivity. Qed.
+
 Theorem finite_sweep : length all_perms4 = 24%nat /\ length all_patterns = 15%nat /\
   forall row pattern, In row all_perms4 -> In pattern all_patterns -> check_pair row pattern = true.
-*)
+Proof.
+  split; [vm_compute; reflexivity|]. split; [vm_compute; reflexivity|].
+  intros row pattern Hr Hp. pose proof finite_sweep_bool as H.
+  rewrite forallb_forall in H. specialize (H row Hr).
+  rewrite forallb_forall in H. exact (H pattern Hp).
+Qed.
+
+Print Assumptions argsort_perm.
+Print Assumptions argsort_length.
+Print Assumptions argsort_sorted.
+Print Assumptions shuffle_unshuffle.
+Print Assumptions unshuffle_shuffle.
+Print Assumptions shuffle_digit_total.
+Print Assumptions unshuffle_digit_total.
+Print Assumptions code_select_is_spec.
+Print Assumptions code_rank_is_spec.
+Print Assumptions select_no_table.
+Print Assumptions select_rank_bijection.
+Print Assumptions finite_sweep.
